@@ -94,6 +94,7 @@ type Obligation struct {
 	expect  string // "unsat" (default, goal must hold) or "sat" (reachability / vacuity)
 	descr   string
 	narrow  string // optional reduced script tried first (very large queries)
+	confirmed string // thorough tier: second solver that also proved it
 	params  []*Term // values to report in a model
 	pnames  []string
 	// results
